@@ -432,10 +432,72 @@ func cmdRun(args []string) int {
 		}
 		f.Close()
 	}
-	return finish(spec, *tier, base, recs, start)
+	extra := map[string]interface{}{"instrumented_build": chain.Instrumented}
+	if other := os.Getenv("SIMCHECK_XCHECK"); other != "" {
+		// fidelity / natural-order cross-check: the same seeds through the other binary (plain build,
+		// Go's own map order) must give the same event-log digests
+		n, bad, err := xcheck(*prop, base, other, 12)
+		extra["cross_checked_seeds_against_plain_build"] = n
+		if err != nil || bad != "" {
+			fmt.Fprintf(os.Stderr, "INFRA: plain and instrumented builds disagree or could not be compared: %v %s\n", err, bad)
+			finish(spec, *tier, base, recs, start, extra)
+			return 2
+		}
+	}
+	return finish(spec, *tier, base, recs, start, extra)
 }
 
-func finish(spec *chain.PropSpec, tier string, base int64, recs []runRec, start time.Time) int {
+func digestsOf(bin, prop string, base int64, n int, dir string) ([]string, error) {
+	out := filepath.Join(dir, filepath.Base(bin)+".jsonl")
+	cmd := exec.Command(bin, "worker", "-prop", prop, "-tier", "quick", "-base", fmt.Sprint(base), "-offset", "0", "-stride", "1", "-chain", "2", "-budget", "900", "-maxruns", fmt.Sprint(n), "-out", out, "-replaydir", dir, "-shrink", "0")
+	cmd.Stderr = os.Stderr
+	if err := cmd.Run(); err != nil {
+		return nil, err
+	}
+	f, err := os.Open(out)
+	if err != nil {
+		return nil, err
+	}
+	defer f.Close()
+	var ds []string
+	sc := bufio.NewScanner(f)
+	sc.Buffer(make([]byte, 1<<20), 1<<26)
+	for sc.Scan() {
+		var r runRec
+		json.Unmarshal(sc.Bytes(), &r)
+		ds = append(ds, fmt.Sprintf("%d:%s:%d:%s", r.Seed, r.Digest, r.Blocks, r.Sig))
+	}
+	return ds, nil
+}
+
+func xcheck(prop string, base int64, other string, n int) (int, string, error) {
+	tmp, err := os.MkdirTemp("", "xcheck-")
+	if err != nil {
+		return 0, "", err
+	}
+	defer os.RemoveAll(tmp)
+	var a, b []string
+	var ea, eb error
+	var wg sync.WaitGroup
+	wg.Add(2)
+	go func() { defer wg.Done(); a, ea = digestsOf(os.Args[0], prop, base+7, n, tmp) }()
+	go func() { defer wg.Done(); b, eb = digestsOf(other, prop, base+7, n, tmp) }()
+	wg.Wait()
+	if ea != nil || eb != nil {
+		return 0, "", fmt.Errorf("%v %v", ea, eb)
+	}
+	if len(a) != n || len(b) != n {
+		return 0, "", fmt.Errorf("got %d / %d runs, want %d", len(a), len(b), n)
+	}
+	for i := range a {
+		if a[i] != b[i] {
+			return i, fmt.Sprintf("seed/digest/blocks %s (this build) vs %s (%s)", a[i], b[i], other), nil
+		}
+	}
+	return n, "", nil
+}
+
+func finish(spec *chain.PropSpec, tier string, base int64, recs []runRec, start time.Time, extra map[string]interface{}) int {
 	known := loadKnown()
 	distinct := map[string]bool{}
 	faults := map[string]int{}
@@ -570,6 +632,9 @@ func finish(spec *chain.PropSpec, tier string, base int64, recs []runRec, start 
 	}
 	if len(samples) == 0 {
 		cov["samples"] = []interface{}{"no run completed"}
+	}
+	for k, v := range extra {
+		cov[k] = v
 	}
 	ev := evidence{PropertyID: spec.ID, Tier: tier, Seed: base, Level: spec.Level, Coverage: cov, WallS: wall, Violations: nviol,
 		Assumptions: append([]string{"process-crash disk model (completed writes durable, batches atomic)", "IAVL/tm-db internals run real but un-instrumented", "search samples the space: a clean batch is evidence, not proof"}, spec.Assumptions...)}
